@@ -479,7 +479,7 @@ def run_cart(c, tier, rng, rd, exe):
             ok = c.violation("cart:locate:%s" % sig, "lattice point %s is located in cell %s, Layer A: %s" % (cs["pts"][k], g["loc"][k], exp[i]["loc"][k]), info) and False
         elif g["ngb"] != exp[i]["ngb"]:
             k = next(k for k in range(ncell) if g["ngb"][k] != exp[i]["ngb"][k])
-            ok = c.violation("cart:neighbours:%s" % sig, "neighbours [axis, sign, cell] of cell %d: code %s, Layer A %s" % (k, g["ngb"][k], exp[i]["ngb"][k]), info) and False
+            ok = c.violation("cart:neighbours:%s" % sig, "neighbours [axis, sign, cell, neighbour midpoint (3), face midpoint (3), face area] of cell %d (lattice units relative to the cell midpoint): code %s, Layer A %s" % (k, g["ngb"][k], exp[i]["ngb"][k]), info) and False
         if not ok or not g["complete"]:
             continue
         u, a = CFRAMES[cs["frame"]]
